@@ -107,6 +107,7 @@ type variant struct {
 	Race      bool
 	Extra     map[string]string
 	Freeze    bool
+	Engine    string
 }
 
 var (
@@ -478,6 +479,9 @@ func mkCfg(seed uint64, prop string, v variant) map[string]any {
 	}
 	if v.Freeze {
 		cfg["freeze"] = true
+	}
+	if v.Engine != "" {
+		cfg["engine"] = v.Engine
 	}
 	cfg["_variant"] = v.Name
 	return cfg
